@@ -3,11 +3,12 @@ CONSTANTS
   Nodes = {"a", "b", "c", "d"}
   Endorsors = {"e1", "e2", "e3"}
   Endorsement = 1
+  Cap = 101
   None = "none"
   MaxBlocks = 1000
   MaxTx = 3
   Genesis <- Gen2
-  MBPs = {1, 2, 3, 4}
+  MBPs = {0, 1, 2, 3, 200}
   Bals = {0, 1, 2}
 INVARIANT Export
 INVARIANT ListIsInsertionOrder
